@@ -78,14 +78,15 @@ def run(tier):
     apps = 0
     rules_seen = set()
     for o in res:
-        rel = os.path.relpath(o["path"], vlib.REPO) if o["path"].startswith(vlib.REPO) else o["path"]
+        rel = os.path.relpath(o["path"], vlib.REPO) if o["path"].startswith(vlib.REPO) else os.path.relpath(o["path"], vlib.VERIF)
+        at = "@" + rel if rel.startswith("corpus_min/") else ""  # purpose-made inputs are identified as such
         apps += o["applications"]
         for pr in o["probes"]:
             rules_seen.add(pr["rule"])
             if "exception" in pr:
-                ck.violation("second-fix-raises:" + pr["rule"], "%s: applying %s a second time raises %s" % (rel, pr["rule"], pr["exception"]), {"kind": "input", "file": rel, "argv": o["argv"], "rule": pr["rule"]})
+                ck.violation("second-fix-raises:" + pr["rule"] + at, "%s: applying %s a second time raises %s" % (rel, pr["rule"], pr["exception"]), {"kind": "input", "file": rel, "argv": o["argv"], "rule": pr["rule"]})
             else:
-                ck.violation("second-fix-changes:" + pr["rule"], "%s: applying %s again right after its own fix changes line %s (%r -> %r); it still reported %d violation(s)" % (rel, pr["rule"], pr["line"], pr["first"], pr["second"], pr["remaining"]),
+                ck.violation("second-fix-changes:" + pr["rule"] + at, "%s: applying %s again right after its own fix changes line %s (%r -> %r); it still reported %d violation(s)" % (rel, pr["rule"], pr["line"], pr["first"], pr["second"], pr["remaining"]),
                              {"kind": "input", "file": rel, "argv": o["argv"], "rule": pr["rule"], "detail": pr})
     ck.cov.update({"programs": len(jobs), "rule_applications_probed": apps, "disagreements_checked": len(ck.viol) + sum(v[1] for v in ck.known_hits.values()), "evaluations": apps, "distinct_nontrivial": max(2, len(rules_seen)),
                    "status": {s: len([o for o in res if o["status"] == s]) for s in {o["status"] for o in res}}})
